@@ -3,6 +3,8 @@ import WuffsVerif.Model.Lzma
 /-! Line driver for C17 (lib/litonlylzma).  Bytes are lower-case hex, `-` = empty.
   enc lzma|xz <hex>            -> ok <hex>
   dec lzma|xz <hex>            -> ok <hex-data> rest=<n> err=<class>
+  encd lzma|xz <hex dst> <hex> -> ok <hex of dst ++ encoding>      (Encode with a non-empty dst to append to)
+  decd lzma|xz <hex dst> <hex> -> ok <hex of dst ++ data> rest=<n> err=<class>
   shl <low> <width> <head> <extra>   -> <hex emitted> <low> <width> <head> <extra>      (rangeEncoder.shiftLow)
   encbit <p> <low> <width> <head> <extra> <bit> -> <p'> <hex emitted> <low> <width> <head> <extra>
   decbit <p> <bits> <width> <hex src> -> eof | <bit> <p'> <bits> <width> rest=<n>
@@ -79,6 +81,20 @@ def c17Step (l : List String) : String :=
       if f == "lzma" then showDec (decodeLZMA #[] src)
       else if f == "xz" then showDec (decodeXz #[] src)
       else "bad-op"
+  | ["encd", f, hd, h] =>
+    match parseHex hd, parseHex h with
+    | some pre, some src =>
+      if f == "lzma" then "ok " ++ showHex (encodeLZMA pre.toArray src)
+      else if f == "xz" then "ok " ++ showHex (encodeXz pre.toArray src)
+      else "bad-op"
+    | _, _ => "bad-op"
+  | ["decd", f, hd, h] =>
+    match parseHex hd, parseHex h with
+    | some pre, some src =>
+      if f == "lzma" then showDec (decodeLZMA pre.toArray src)
+      else if f == "xz" then showDec (decodeXz pre.toArray src)
+      else "bad-op"
+    | _, _ => "bad-op"
   | ["encraw", h] =>
     match parseHex h with
     | none => "bad-op"
